@@ -16,9 +16,22 @@
 (*   MPurge   leveldb back-end only: every state key of the merged temp is   *)
 (*            removed from the cache                                         *)
 (*                                                                          *)
+(* Reopen (v2): the permanent database object is closed and created again   *)
+(*   over the stored data: the cache is empty.                               *)
+(* Whether the merged temp carries the state in its own state cache is      *)
+(* chosen per merge (v2; TempCaches): a temp of a block written without      *)
+(* SetStateCache, an imported block, a temp reloaded after a restart or one  *)
+(* whose LFU cache evicted the key has none, and then MCaches does nothing.  *)
+(*                                                                          *)
 (* C19/C26 (reads agree with the committed chain): when no merge is running *)
 (* a cached state is the stored one (CacheFresh), and a read that starts    *)
 (* after a merge has ended returns that merge's state (NoStaleRead).        *)
+(* `raced` (v2) says whether a read was ever in flight (between its cache   *)
+(* lookup and its return) while a merge step ran. Without such an overlap   *)
+(* the history is sequential - reads, merges and reopens one after the      *)
+(* other - and CacheFresh / NoStaleRead must hold (SequentialFresh): the    *)
+(* known race of the pinned tree needs the overlap, a merge that leaves a   *)
+(* state cached by an EARLIER, COMPLETED read in place does not.             *)
 (* TLC's counterexamples are schedules; binding G forces them on the real   *)
 (* LeveldbPermanent/RedisPermanent through the verif gates "state-cache-    *)
 (* miss" and "state-loaded" (harness/internal/c19/forced.go). Schedules in  *)
@@ -28,8 +41,9 @@ EXTENDS Integers, Sequences, FiniteSets, TLC, Json
 
 CONSTANTS Readers,       \* e.g. {"r1"}
           MaxMerges,     \* how many merges write the key (heights 1..MaxMerges; height 0 is stored at the start)
-          Purge,         \* TRUE: leveldb back-end (purges merged keys), FALSE: redis back-end
-          TempCacheHas   \* TRUE: the block write database had a state cache, so the temp's cache holds the merged state
+          Purge,         \* TRUE: the merge purges the merged keys from the cache (both back-ends of the tree)
+          TempCaches,    \* subset of BOOLEAN: may the merged temp's own state cache hold the merged state
+          WithReopen     \* TRUE: the Reopen step is enabled
 
 VARIABLES stored,   \* height of the key's state in the storage
           cache,    \* height of the cached state, -1 = not cached
@@ -38,10 +52,12 @@ VARIABLES stored,   \* height of the key's state in the storage
           rlo,      \* reader -> `stored` when its read was called while no merge was running, else -1
           rret,     \* reader -> what the read returned (-1 = none yet)
           mpc,      \* "idle" | "written" | "cached"
+          mtc,      \* the running merge's temp holds the state in its own state cache
+          raced,    \* a merge step ran while a read was in flight
           sched,    \* output: the schedule so far
           step
-vars == <<stored, cache, rpc, rval, rlo, rret, mpc, sched, step>>
-view == <<stored, cache, rpc, rval, rlo, rret, mpc>>
+vars == <<stored, cache, rpc, rval, rlo, rret, mpc, mtc, raced, sched, step>>
+view == <<stored, cache, rpc, rval, rlo, rret, mpc, mtc, raced>>
 
 TypeOK == stored \in 0..MaxMerges /\ cache \in -1..MaxMerges
 
@@ -50,13 +66,17 @@ CacheFresh == mpc = "idle" => cache \in {-1, stored}
 (* a read called after the merge of height h had ended never returns an older state *)
 NoStaleRead == \A r \in Readers : rret[r] # -1 /\ rlo[r] # -1 => rret[r] >= rlo[r]
 
+(* sequential histories: no read in flight during a merge step *)
+SequentialFresh == ~raced => CacheFresh /\ NoStaleRead
+InFlight == \E r \in Readers : rpc[r] \in {"miss", "loaded"}
+
 Newer(a, b) == IF a >= b THEN a ELSE b
 Rec(x) == /\ sched' = Append(sched, x)
           /\ step' = ToJson([sched |-> sched', stored |-> stored', cache |-> cache',
                              rets |-> [r \in Readers |-> rret'[r]], los |-> [r \in Readers |-> rlo'[r]],
-                             fresh |-> CacheFresh', nostale |-> NoStaleRead'])
+                             fresh |-> CacheFresh', nostale |-> NoStaleRead', raced |-> raced'])
 
-Init == /\ stored = 0 /\ cache = -1 /\ mpc = "idle"
+Init == /\ stored = 0 /\ cache = -1 /\ mpc = "idle" /\ mtc = FALSE /\ raced = FALSE
         /\ rpc = [r \in Readers |-> "idle"] /\ rval = [r \in Readers |-> -1]
         /\ rlo = [r \in Readers |-> -1] /\ rret = [r \in Readers |-> -1]
         /\ sched = <<>> /\ step = ""
@@ -66,48 +86,61 @@ Lookup(r) == /\ rpc[r] = "idle"
              /\ IF cache # -1
                 THEN /\ rret' = [rret EXCEPT ![r] = cache] /\ rpc' = [rpc EXCEPT ![r] = "done"]
                 ELSE /\ rpc' = [rpc EXCEPT ![r] = "miss"] /\ UNCHANGED rret
-             /\ UNCHANGED <<stored, cache, rval, mpc>>
+             /\ UNCHANGED <<stored, cache, rval, mpc, mtc, raced>>
              /\ Rec(<<r, "lookup">>)
 
 Get(r) == /\ rpc[r] = "miss"
           /\ rval' = [rval EXCEPT ![r] = stored]
           /\ rpc' = [rpc EXCEPT ![r] = "loaded"]
-          /\ UNCHANGED <<stored, cache, rlo, rret, mpc>>
+          /\ UNCHANGED <<stored, cache, rlo, rret, mpc, mtc, raced>>
           /\ Rec(<<r, "get">>)
 
 SetCache(r) == /\ rpc[r] = "loaded"
                /\ cache' = IF cache # -1 /\ cache >= rval[r] THEN cache ELSE rval[r]
                /\ rret' = [rret EXCEPT ![r] = rval[r]]
                /\ rpc' = [rpc EXCEPT ![r] = "done"]
-               /\ UNCHANGED <<stored, rval, rlo, mpc>>
+               /\ UNCHANGED <<stored, rval, rlo, mpc, mtc, raced>>
                /\ Rec(<<r, "setcache">>)
 
 (* a reader may read again *)
 Again(r) == /\ rpc[r] = "done" /\ Len(sched) < 4 * (MaxMerges + Cardinality(Readers))
             /\ rpc' = [rpc EXCEPT ![r] = "idle"]
             /\ rret' = [rret EXCEPT ![r] = -1]
-            /\ UNCHANGED <<stored, cache, rval, rlo, mpc, sched, step>>
+            /\ UNCHANGED <<stored, cache, rval, rlo, mpc, mtc, raced, sched, step>>
 
-MWrite == /\ mpc = "idle" /\ stored < MaxMerges
-          /\ stored' = stored + 1
-          /\ mpc' = "written"
-          /\ UNCHANGED <<cache, rpc, rval, rlo, rret>>
-          /\ Rec(<<"m", "write">>)
+MWrite(tc) == /\ mpc = "idle" /\ stored < MaxMerges
+              /\ stored' = stored + 1
+              /\ mpc' = "written"
+              /\ mtc' = tc
+              /\ raced' = (raced \/ InFlight)
+              /\ UNCHANGED <<cache, rpc, rval, rlo, rret>>
+              /\ Rec(<<"m", "write", IF tc THEN "tempcache" ELSE "notempcache">>)
 
 MCaches == /\ mpc = "written"
-           /\ cache' = IF TempCacheHas THEN (IF cache # -1 /\ cache >= stored THEN cache ELSE stored) ELSE cache
+           /\ cache' = IF mtc THEN (IF cache # -1 /\ cache >= stored THEN cache ELSE stored) ELSE cache
            /\ mpc' = "cached"
-           /\ UNCHANGED <<stored, rpc, rval, rlo, rret>>
+           /\ raced' = (raced \/ InFlight)
+           /\ UNCHANGED <<stored, rpc, rval, rlo, rret, mtc>>
            /\ Rec(<<"m", "caches">>)
 
 MPurge == /\ mpc = "cached"
           /\ cache' = IF Purge THEN -1 ELSE cache
           /\ mpc' = "idle"
-          /\ UNCHANGED <<stored, rpc, rval, rlo, rret>>
+          /\ raced' = (raced \/ InFlight)
+          /\ UNCHANGED <<stored, rpc, rval, rlo, rret, mtc>>
           /\ Rec(<<"m", "purge">>)
 
+(* close the permanent database, create it again over the stored data (no call is running) *)
+Reopen == /\ WithReopen
+          /\ mpc = "idle" /\ ~InFlight
+          /\ cache # -1                       \* (only where it changes something)
+          /\ cache' = -1
+          /\ UNCHANGED <<stored, rpc, rval, rlo, rret, mpc, mtc, raced>>
+          /\ Rec(<<"x", "reopen">>)
+
 Next == \/ \E r \in Readers : Lookup(r) \/ Get(r) \/ SetCache(r) \/ Again(r)
-        \/ MWrite \/ MCaches \/ MPurge
+        \/ \E tc \in TempCaches : MWrite(tc)
+        \/ MCaches \/ MPurge \/ Reopen
 Spec == Init /\ [][Next]_vars
 
 =============================================================================
